@@ -352,7 +352,7 @@ func (a *guardAnalyzer) isPattern(e ast.Expr) bool {
 		return false
 	}
 	f := core.FieldOf(a.info, sel)
-	return f != nil && f.Name() == "pattern"
+	return f != nil && core.BaseName(f) == "pattern"
 }
 
 func (a *guardAnalyzer) assign(n *ast.AssignStmt, s *gstate) {
@@ -384,6 +384,27 @@ func (a *guardAnalyzer) assign(n *ast.AssignStmt, s *gstate) {
 				s.saved[v] = s.L
 				s.at[v] = 0
 			default:
+				if call, ok := ast.Unparen(r).(*ast.CallExpr); ok {
+					// v := min(..., p.charsRight(), w, ...): v is below every argument, so
+					// charsRight() >= v + d for the best d any argument offers
+					if kind, args := core.MinMaxCall(a.c.P, a.info, call); kind == "min" {
+						best, have := 0, false
+						for _, arg := range args {
+							if a.primName(arg) == "charsRight" {
+								if !have || best < 0 {
+									best, have = 0, true
+								}
+							} else if w := a.localVar(arg); w != nil {
+								if d, ok := s.diff[w]; ok && (!have || d > best) {
+									best, have = d, true
+								}
+							}
+						}
+						if have {
+							s.diff[v] = best
+						}
+					}
+				}
 				if w := a.localVar(r); w != nil {
 					if d, ok := s.diff[w]; ok {
 						s.diff[v] = d
@@ -907,7 +928,7 @@ func checkCategoryIndex(c *core.Ctx) {
 	p := c.P
 	syn := p.Pkg("syntax")
 	info := syn.TypesInfo
-	cat, _ := syn.Types.Scope().Lookup("_category").(*types.Var)
+	cat, _ := c.P.LookupObj("syntax", "_category").(*types.Var)
 	if cat == nil {
 		c.Anchor("syntax._category")
 		return
